@@ -12,6 +12,7 @@
 package main
 
 import (
+	"encoding/json"
 	"fmt"
 	"os"
 	"os/exec"
@@ -754,6 +755,57 @@ func evalRule(k ruleCase) outcome {
 
 // ---------------------------------------------------------------------------------------------
 
+func replayArg() string {
+	for i, a := range os.Args {
+		if a == "--replay" && i+1 < len(os.Args) {
+			return os.Args[i+1]
+		}
+	}
+	return ""
+}
+
+// replay re-runs one recorded case (conversion + v2 load + comparison) and exits 1 if it still fails.
+func replay(path string) {
+	b, err := os.ReadFile(path)
+	if err != nil {
+		ev.Harness("replay: %v", err)
+	}
+	var rec struct {
+		Replay json.RawMessage `json:"replay"`
+	}
+	if err := json.Unmarshal(b, &rec); err != nil {
+		ev.Harness("replay: %v", err)
+	}
+	var o outcome
+	var probe map[string]any
+	json.Unmarshal(rec.Replay, &probe)
+	if _, isCfg := probe["settings"]; isCfg {
+		var k cfgCase
+		json.Unmarshal(rec.Replay, &k)
+		// address the settings by name (the table may have been reordered since the replay was written)
+		k.Set = nil
+		for _, n := range k.Names {
+			for i, s := range settings {
+				if s.name() == n {
+					k.Set = append(k.Set, i)
+				}
+			}
+		}
+		o = evalCfg(k)
+	} else {
+		var k ruleCase
+		json.Unmarshal(rec.Replay, &k)
+		o = evalRule(k)
+	}
+	os.RemoveAll(workRoot)
+	if o.sig != "" {
+		fmt.Printf("VIOLATION property=C38 replay=%s\n  detail: %s :: %s\n", path, o.sig, o.what)
+		os.Exit(1)
+	}
+	fmt.Printf("replay: no violation (%s)\n", o.label)
+	os.Exit(0)
+}
+
 func main() {
 	r := ev.New("C38", "exploration")
 	work := os.Getenv("VERIF_WORK")
@@ -805,6 +857,10 @@ func main() {
 				ruleCases = append(ruleCases, ruleCase{Kind: "rules", Sampler: "RulesBasedSampler:", Variant: v, Place: place, Format: f})
 			}
 		}
+	}
+
+	if path := replayArg(); path != "" {
+		replay(path)
 	}
 
 	// determinism self-check: the first case of each kind twice
